@@ -36,7 +36,19 @@ func TestC06Wait(t *testing.T) {
 		runtime.GOMAXPROCS(procs[i%len(procs)])
 		nT := 1 + rng.IntN(3)
 		drivers := conc.SameShardTypes(all, nT, rng.Uint64())
-		w := conc.NewWorld(drivers, rng.Uint64(), true)
+		if i%2 == 1 {
+			// types routed to different shards (in-flight accounting must be bus-wide)
+			drivers = nil
+			for _, j := range rng.Perm(len(all))[:nT] {
+				drivers = append(drivers, all[j])
+			}
+		}
+		var opts []ebu.Option
+		if i%3 == 2 {
+			// a persistent bus with a persistence timeout: the timeout must not leak into dispatch
+			opts = append(opts, ebu.WithStore(ebu.NewMemoryStore()), ebu.WithPersistenceTimeout(time.Hour))
+		}
+		w := conc.NewWorld(drivers, rng.Uint64(), true, opts...)
 		w.NoisePct = 40 + rng.IntN(50)
 		maxDepth := rng.IntN(4)
 		// static registry: async handlers (some sequential, some filtered), a few sync ones
